@@ -26,15 +26,15 @@ def run(ctx):
                 "non-trivial = at least 2 free nodes and 1 iteration observed")
     ctx.assumptions = ["predicate book = shapes and rates of node_posterior and _assemble_factors(factors) agree to "
                        "rtol 1e-9 (observed residual on the unchanged tree < 1e-14)"]
-    cfg = ctx.write_cfg("epany.cfg", constants={"Graphs": "{1,2,3,4,5}", "IncrIds": "{1,2,3}", "Caps": "{2,1000}",
-                                                "MaxVisits": 3 if q else 4},
+    cfg = ctx.write_cfg("epany.cfg", constants={"Graphs": "{1,2,3,4,5}", "IncrIds": "{1,2,3}", "Caps": "{2,1000}" if q else "{2,3,1000}",
+                                                "MaxVisits": 3},
                         invariants=["Book", "FixedUntouched", "ProperOrNeverUpdated", "ShapeCapped"],
                         properties=["AbsorbKeepsPosterior"], constraints=["Bounded"])
-    ctx.tlc("EPAny", cfg, workers=8, required_actions=("Choose",))
+    ctx.tlc("EPAny", cfg, workers=8 if q else 16, timeout=900 if q else 3400, required_actions=("Choose",))
     base = dict(max_parents=2, max_edges=3, counts=[0, 1, 2], spans=[1, 2], mu_halves=[2, 1], caps=[2, 3, 1000],
                 max_iters=2)
     cfg = ctx.write_cfg("epstar_book.cfg", constants=ec.star_consts(**base), invariants=["Book", "NoOverflow"])
-    ctx.tlc("EPStar", cfg, workers=8)
+    ctx.tlc("EPStar", cfg, workers=8, timeout=900 if q else 3400)
     gen = dict(base)
     gen.update(emit=True, caps=[3, 1000], counts=[0, 2], max_iters=2)
     cfg = ctx.write_cfg("epstar_gen.cfg", constants=ec.star_consts(**gen), invariants=["EmitInv"])
@@ -52,6 +52,21 @@ def run(ctx):
                 ctx.violation("C21/star/Book", inst, f"after iterate() #{i + 1}: {rec}", subcheck="star")
         ctx.traces += 1
         ctx.evaluations += 1
+    # stress instance: a 60-leaf polytomy with ~100 mutations per edge and max_shape = 2 drives a node's
+    # accumulated scale below TINY inside one sweep, so _rescale_factors fires *mid-iteration*
+    # (EPAny!AbsorbScale at an arbitrary point); added after second seed C21-b
+    stress = {"edges": [{"p": 1, "y": 100 + (i % 7), "span": 1} for i in range(60)], "mu": [1, 1], "cap": [2, 1], "iters": 4}
+    ts = ec.star_ts(stress)
+    ep = variational.ExpectationPropagation(ts, mutation_rate=1.0, allow_unary=True)
+    seen_mid = False
+    for i in range(stress["iters"]):
+        ep.iterate(max_shape=2.0, regularise=False)
+        rec = ec.iteration_record(i + 1, ep, 2.0)
+        if not (rec["book"] and rec["scale_one"] and rec["fixed_untouched"] and rec["proper_or_never_updated"]):
+            ctx.violation("C21/stress/Book", {"stress": "polytomy60", "iteration": i + 1, "record": rec},
+                          f"polytomy stress instance after iterate() #{i + 1}: {rec}", subcheck="stress")
+    ctx.traces += 1
+    ctx.evaluations += 1
     corpus = ec.ep_corpus(ctx)
     settings = [{"max_iterations": 3}, {"max_iterations": 2, "max_shape": 2.0, "regularise_roots": False},
                 {"max_iterations": 3, "max_shape": 3.0},
